@@ -3603,4 +3603,159 @@ theorem createSubscription_statement_print_parse (fuel : Nat) (s : PState) (name
   obtain ⟨s', h2, b2⟩ := createSubscription_print_parse fuel s1 name db rp mode v vs k hex1 hex2 hex3 hmode hexv hk b1
   exact ⟨s', by rw [h1]; exact h2, b2⟩
 
+/-! ### SHOW TAG KEYS with `WITH KEY`, SLIMIT and SOFFSET -/
+
+/-- ` WITH KEY <op> <key>` when there is a key. -/
+def optKeyText (op : Token) : Option Expr → Str
+  | none => []
+  | some key => withKeyText op key
+
+/-- `[ON db] [FROM names] [WITH KEY …] [WHERE cond] [LIMIT l] [OFFSET o] [SLIMIT sl] [SOFFSET so]`. -/
+def showTagKeysText (db : Str) (names : List Str) (op : Token) (key : Option Expr) (c : Option Expr) (l o sl so : Int) : Str :=
+  onDbText db ++ (fromText names ++ (optKeyText op key ++ (whereText c ++ (posText .LIMIT l ++ (posText .OFFSET o ++
+    (posText .SLIMIT sl ++ posText .SOFFSET so))))))
+
+theorem showTagKeys_withKey_print_partial (db : Str) (names : List Str) (op : Token) (key : Option Expr) (c : Option Expr)
+    (l o sl so : Int) (h : ∀ m ∈ names, m ≠ []) :
+    (Statement.showTagKeys db (names.map nameSrc) op key c [] l o sl so).print =
+      tx "SHOW TAG KEYS" ++ showTagKeysText db names op key c l o sl so := by
+  have e0 : clauseOrderBy [] = [] := rfl
+  cases key with
+  | none =>
+    have p1 : (Statement.showTagKeys db (names.map nameSrc) op none c [] l o sl so).print =
+        tx "SHOW TAG KEYS" ++ clauseOn db ++ clauseFrom (names.map nameSrc) ++ [] ++
+        clauseWhere c ++ clauseOrderBy [] ++ clausePos "LIMIT" l ++ clausePos "OFFSET" o ++ clausePos "SLIMIT" sl ++
+        clausePos "SOFFSET" so := rfl
+    rw [p1, clauseFrom_names names h, clauseWhere_eq, clauseOn_onDbText, (clausePos_eq l).1, (clausePos_eq o).2.1,
+      (clausePos_eq sl).2.2.1, (clausePos_eq so).2.2.2, e0]
+    simp only [showTagKeysText, optKeyText, List.append_assoc, List.append_nil, List.nil_append]
+  | some k =>
+    have p1 : (Statement.showTagKeys db (names.map nameSrc) op (some k) c [] l o sl so).print =
+        tx "SHOW TAG KEYS" ++ clauseOn db ++ clauseFrom (names.map nameSrc) ++ printTagKey op k ++
+        clauseWhere c ++ clauseOrderBy [] ++ clausePos "LIMIT" l ++ clausePos "OFFSET" o ++ clausePos "SLIMIT" sl ++
+        clausePos "SOFFSET" so := rfl
+    rw [p1, printTagKey_eq, clauseFrom_names names h, clauseWhere_eq, clauseOn_onDbText, (clausePos_eq l).1,
+      (clausePos_eq o).2.1, (clausePos_eq sl).2.2.1, (clausePos_eq so).2.2.2, e0]
+    simp only [showTagKeysText, optKeyText, List.append_assoc, List.append_nil]
+
+/-- The key clause of SHOW TAG KEYS: absent (the handler then returns the operator `ILLEGAL`), or as in
+`tagKeyOKB`. -/
+def optKeyOKB (op : Token) : Option Expr → Bool
+  | none => op == .ILLEGAL
+  | some key => tagKeyOKB op key
+
+/-- **Print → parse, SHOW TAG KEYS** `[ON db] [FROM m1, …] [WITH KEY = k | != k | =~ /re/ | !~ /re/ | IN (k1, …)]
+[WHERE cond] [LIMIT l] [OFFSET o] [SLIMIT sl] [SOFFSET so]` — `showTagKeys_print_parse_partial` extended by the key
+clause and the series limits. Partial: plain measurement names, `Printable` condition, no `ORDER BY`. -/
+theorem showTagKeys_withKey_print_parse_partial (fuel : Nat) (s : PState) (db : Str) (names : List Str) (op : Token)
+    (key : Option Expr) (c : Option Expr) (l o sl so : Int) (k : Str)
+    (hexdb : Expressible db) (hex : ∀ m ∈ names, Expressible m) (hkey : optKeyOKB op key = true) (hc : CondOK c)
+    (hl : 0 ≤ l ∧ l ≤ maxInt64) (ho : 0 ≤ o ∧ o ≤ maxInt64) (hsl : 0 ≤ sl ∧ sl ≤ maxInt64)
+    (hso : 0 ≤ so ∧ so ≤ maxInt64) (hk : Follow k showStop)
+    (hs : s.Before (showTagKeysText db names op key c l o sl so ++ k)) :
+    wp (runHandler fuel .parseShowTagKeysStatement) s
+      (fun st s' => st = .showTagKeys db (names.map nameSrc) op key c [] l o sl so ∧ RT.Stand s' k) (· = .fuel) := by
+  have g6 : Follow (posText .SOFFSET so ++ k) [.EXACT, .CARDINALITY, .ON, .FROM, .COMMA, .WITH, .WHERE, .ORDER, .LIMIT, .OFFSET,
+      .SLIMIT] := Follow.opt (kwText_pos _ _) (by decide +kernel) rfl (by decide) (hk.mono (by decide))
+  have g5 : Follow (posText .SLIMIT sl ++ (posText .SOFFSET so ++ k)) [.EXACT, .CARDINALITY, .ON, .FROM, .COMMA, .WITH, .WHERE,
+      .ORDER, .LIMIT, .OFFSET] := Follow.opt (kwText_pos _ _) (by decide +kernel) rfl (by decide) (g6.mono (by decide))
+  have g4 : Follow (posText .OFFSET o ++ (posText .SLIMIT sl ++ (posText .SOFFSET so ++ k))) [.EXACT, .CARDINALITY, .ON, .FROM,
+      .COMMA, .WITH, .WHERE, .ORDER, .LIMIT] :=
+    Follow.opt (kwText_pos _ _) (by decide +kernel) rfl (by decide) (g5.mono (by decide))
+  have g3 : Follow (posText .LIMIT l ++ (posText .OFFSET o ++ (posText .SLIMIT sl ++ (posText .SOFFSET so ++ k))))
+      [.EXACT, .CARDINALITY, .ON, .FROM, .COMMA, .WITH, .WHERE, .ORDER] :=
+    Follow.opt (kwText_pos _ _) (by decide +kernel) rfl (by decide) (g4.mono (by decide))
+  have g2 : Follow (whereText c ++ (posText .LIMIT l ++ (posText .OFFSET o ++ (posText .SLIMIT sl ++ (posText .SOFFSET so ++ k)))))
+      [.EXACT, .CARDINALITY, .ON, .FROM, .COMMA, .WITH] :=
+    Follow.opt (kwText_where _) (by decide +kernel) rfl (by decide) (g3.mono (by decide))
+  have gW : Follow (optKeyText op key ++ (whereText c ++ (posText .LIMIT l ++ (posText .OFFSET o ++ (posText .SLIMIT sl ++
+      (posText .SOFFSET so ++ k)))))) [.EXACT, .CARDINALITY, .ON, .FROM, .COMMA] := by
+    cases key with
+    | none => exact g2.mono (by decide)
+    | some key => exact Follow.opt (kwText_withKey op key) (by decide +kernel) rfl (by decide) (g2.mono (by decide))
+  have gF : Follow (fromText names ++ (optKeyText op key ++ (whereText c ++ (posText .LIMIT l ++ (posText .OFFSET o ++
+      (posText .SLIMIT sl ++ (posText .SOFFSET so ++ k))))))) [.EXACT, .CARDINALITY, .ON] :=
+    Follow.opt (kwText_from _) (by decide +kernel) rfl (by decide) (gW.mono (by decide))
+  have hs0 : RT.Stand s (onDbText db ++ (fromText names ++ (optKeyText op key ++ (whereText c ++ (posText .LIMIT l ++
+      (posText .OFFSET o ++ (posText .SLIMIT sl ++ (posText .SOFFSET so ++ k)))))))) := by
+    have := hs.stand
+    simpa only [showTagKeysText, List.append_assoc] using this
+  obtain ⟨s3, h3, st3⟩ := parseOnDb_stand s db _ hexdb (gF.mono (by decide)) hs0
+  obtain ⟨s4, h4, st4⟩ := parseOptFrom_names s3 names _ hex (gW.mono (by decide)) st3
+  -- the common tail
+  have tail : ∀ s6 : PState, RT.Stand s6 (whereText c ++ (posText .LIMIT l ++ (posText .OFFSET o ++ (posText .SLIMIT sl ++
+      (posText .SOFFSET so ++ k))))) →
+      wp (do
+        let cond ← parseCondition fuel
+        let sort ← parseOrderBy
+        let limit ← parseOptTokInt .LIMIT
+        let offset ← parseOptTokInt .OFFSET
+        let slimit ← parseOptTokInt .SLIMIT
+        let soffset ← parseOptTokInt .SOFFSET
+        pure (Statement.showTagKeys db (names.map nameSrc) op key cond sort limit offset slimit soffset)) s6
+        (fun st s' => st = Statement.showTagKeys db (names.map nameSrc) op key c [] l o sl so ∧ RT.Stand s' k)
+        (· = .fuel) := by
+    intro s6 st6
+    rw [wp_bind]
+    refine wp_mono (parseCondition_print fuel s6 c _ hc (g3.mono (by decide)) st6) ?_ (fun _ h => h)
+    intro c' s7 ⟨hc', st7⟩
+    subst hc'
+    obtain ⟨s8, h8, st8⟩ := parseOrderBy_absent s7 _ (g3.mono (by decide)) st7
+    obtain ⟨s9, h9, st9⟩ := parseOptTokInt_print .LIMIT (by decide +kernel) s8 l _ hl.1 hl.2 (g4.mono (by decide)) st8
+    obtain ⟨s10, h10, st10⟩ := parseOptTokInt_print .OFFSET (by decide +kernel) s9 o _ ho.1 ho.2 (g5.mono (by decide)) st9
+    obtain ⟨s11, h11, st11⟩ := parseOptTokInt_print .SLIMIT (by decide +kernel) s10 sl _ hsl.1 hsl.2 (g6.mono (by decide))
+      st10
+    obtain ⟨s12, h12, st12⟩ := parseOptTokInt_print .SOFFSET (by decide +kernel) s11 so k hso.1 hso.2 (hk.mono (by decide))
+      st11
+    rw [wp_bind, wp_of_run_ok h8, wp_bind, wp_of_run_ok h9, wp_bind, wp_of_run_ok h10, wp_bind, wp_of_run_ok h11,
+      wp_bind, wp_of_run_ok h12, wp_pure]
+    exact ⟨rfl, st12⟩
+  simp only [runHandler, parseShowTagKeys]
+  rw [wp_bind, wp_of_run_ok h3, wp_bind, wp_of_run_ok h4]
+  cases key with
+  | none =>
+    have hop : op = .ILLEGAL := by simpa [optKeyOKB] using hkey
+    subst hop
+    obtain ⟨lx, s5, h5, t5, st5⟩ := peek_stand s4 _ _ .WITH g2 (by decide)
+      (by simpa only [optKeyText, List.nil_append] using st4)
+    rw [wp_bind, wp_of_run_ok h5, wp_bind, unscan_wp]
+    simp only [t5, if_false, pure_bind]
+    exact tail (unsc s5) st5
+  | some key =>
+    have hst : RT.Starts (withKeyText op key ++ (whereText c ++ (posText .LIMIT l ++ (posText .OFFSET o ++
+        (posText .SLIMIT sl ++ (posText .SOFFSET so ++ k)))))) .WITH := by
+      have := starts_kw .WITH (' ' :: (Token.KEY.str ++ ' ' :: (op.str ++ ' ' :: (tagKeyValText key ++ (whereText c ++
+        (posText .LIMIT l ++ (posText .OFFSET o ++ (posText .SLIMIT sl ++ (posText .SOFFSET so ++ k))))))))) (by decide +kernel)
+        (WordEnd.blank _)
+      simpa only [withKeyText, List.append_assoc, List.cons_append] using this
+    obtain ⟨lx, s5, h5, t5, st5, _⟩ := RT.scanIW_starts s4 _ .WITH st4 hst
+    obtain ⟨s6, h6, b6⟩ := parseTagKeyExpr_print (unsc s5) op key _ hkey g2.tokEnd.1 st5
+    rw [wp_bind, wp_of_run_ok h5, wp_bind, unscan_wp]
+    simp only [t5, if_true]
+    rw [wp_bind, wp_bind, wp_of_run_ok h6]
+    dsimp only
+    rw [wp_pure]
+    exact tail s6 b6.stand
+
+/-- Non-vacuity: `SHOW TAG KEYS ON "my db" FROM cpu, "my m" WITH KEY =~ /^h/ WHERE … LIMIT 10 OFFSET 3 SLIMIT 2 SOFFSET 1`. -/
+def exTagKeysText : Str := showTagKeysText "my db".toList exNames .EQREGEX (some (.regex "^h".toList)) exCond 10 3 2 1
+
+example : exTagKeysText = (" ON \"my db\" FROM cpu, \"my m\" WITH KEY =~ /^h/ WHERE host = 'a' AND (x > -1 OR y =~ /^b/) " ++
+    "LIMIT 10 OFFSET 3 SLIMIT 2 SOFFSET 1").toList := by decide +kernel
+
+section
+attribute [local irreducible] wp
+example : wp (runHandler 200 .parseShowTagKeysStatement) (PState.init exTagKeysText [] [])
+    (fun st s' => st = .showTagKeys "my db".toList (exNames.map nameSrc) .EQREGEX (some (.regex "^h".toList)) exCond [] 10 3 2 1 ∧
+      RT.Stand s' [eofRune]) (· = .fuel) :=
+  showTagKeys_withKey_print_parse_partial 200 (PState.init exTagKeysText [] []) "my db".toList exNames .EQREGEX
+    (some (.regex "^h".toList)) exCond 10 3 2 1 [eofRune] (by decide +kernel) (by decide +kernel) (by decide +kernel)
+    (by decide +kernel) (by decide) (by decide) (by decide) (by decide) (Follow.eof _ (by decide))
+    (init_before exTagKeysText (by decide +kernel))
+end
+
+example : (match (runHandler 200 .parseShowTagKeysStatement).run (PState.init exTagKeysText [] []) with
+    | .ok _ => true
+    | .error _ => false) = true := by decide +kernel
+
 end InfluxQL.C02
